@@ -1,6 +1,50 @@
-import RucteModel
+import RucteModel.Statics
+import RucteProofs.BTree
 
-/-! # C20 — placeholder: theorems are added as they are proved. -/
+/-!
+# C20 — Sass `static_name()` resolves to the published names
+
+`staticName names f` = the builtin: mangle `f` exactly as `add_static` does and look it up in
+`get_names()`.  `staticNamePinned` is the defective lookup of the pinned tree (only `-` and `.`
+were replaced), kept with its machine-checked counterexample.
+-/
 namespace Ructe.C20
-theorem placeholder : True := trivial
+open Nom
+
+/-- every file added before is found, and resolves to its published URL name -/
+theorem static_name_total (ua : Nat → Bool) (names : List (Bytes × Bytes)) (f url : Bytes)
+    (hs : StrictSorted (names.map (·.1))) :
+    staticName ua (btInsert (mangle ua f) url names) f = some url := by
+  have _ := hs
+  unfold staticName
+  exact btGet_btInsert_self _ _ _
+
+/-- later additions under other identifiers do not disturb it -/
+theorem static_name_stable (ua : Nat → Bool) (names : List (Bytes × Bytes)) (f g url : Bytes)
+    (hs : StrictSorted (names.map (·.1))) (hne : mangle ua g ≠ mangle ua f) :
+    staticName ua (btInsert (mangle ua g) url names) f = staticName ua names f := by
+  have _ := hs
+  unfold staticName
+  exact btGet_btInsert_ne _ _ _ _ (Ne.symm hne)
+
+/-- a hit is always the entry recorded under the identifier of the queried name: a miss is an
+error (`none` = `CallError`), never another identifier's URL -/
+theorem static_name_never_wrong (ua : Nat → Bool) (names : List (Bytes × Bytes)) (f u : Bytes)
+    (h : staticName ua names f = some u) : (mangle ua f, u) ∈ names := by
+  unfold staticName at h
+  exact btGet_some_mem h
+
+/-- a name that was never added (no entry under its identifier) is an error -/
+theorem static_name_missing (ua : Nat → Bool) (names : List (Bytes × Bytes)) (f : Bytes)
+    (h : ∀ p ∈ names, p.1 ≠ mangle ua f) : staticName ua names f = none := by
+  unfold staticName
+  exact btGet_none_of_not_mem h
+
+/-- the pinned lookup misses files that were added: `17.css` is stored under `n17_css` but looked
+up as `17_css` (finding #8, machine-checked) -/
+theorem pinned_counterexample :
+    staticNamePinned (btInsert (mangle (fun _ => false) [49, 55, 46, 99, 115, 115]) [120] []) [49, 55, 46, 99, 115, 115] = none ∧
+    staticName (fun _ => false) (btInsert (mangle (fun _ => false) [49, 55, 46, 99, 115, 115]) [120] []) [49, 55, 46, 99, 115, 115] = some [120] := by
+  decide
+
 end Ructe.C20
